@@ -291,7 +291,7 @@ const INT_OPS: &[(&str, usize)] = &[
     ("U.div.prim", 2), ("U.rem.prim", 2), ("U.div_rem.prim", 2), ("U.div_rem_assign.prim", 2),
     ("I.div.prim", 3), ("I.rem.prim", 3), ("I.div_rem.prim", 3), ("I.div_rem_assign.prim", 3),
     ("U.add.prim", 2), ("U.sub.prim", 2), ("prim.sub.U", 2), ("U.mul.prim", 2),
-    ("I.add.prim", 2), ("I.sub.prim", 2), ("prim.sub.I", 2), ("I.mul.prim", 2), ("I.and.prim", 2),
+    ("I.add.prim", 2), ("I.sub.prim", 2), ("prim.sub.I", 2), ("prim.div.I", 2), ("I.mul.prim", 2), ("I.and.prim", 2),
     ("U.gcd", 2), ("U.gcd_ext", 2), ("I.gcd", 2), ("I.gcd_ext", 2),
     ("U.sqrt", 1), ("U.sqrt_rem", 1), ("I.sqrt", 1), ("U.cbrt", 1), ("I.cbrt", 1), ("U.nth_root", 2), ("I.nth_root", 2),
     ("U.ilog", 2), ("I.ilog", 2), ("U.pow", 2), ("I.pow", 2), ("U.shl", 2), ("I.shl", 2), ("U.shr", 2), ("I.shr", 2),
@@ -447,6 +447,10 @@ fn exec_int(op: &str, a: &[Value]) -> Option<Out> {
         "prim.sub.I" => {
             let x = ai(&a[1]);
             aprim!(&a[0], p => ok(p - x))
+        }
+        "prim.div.I" => {
+            let x = ai(&a[1]);
+            aprim!(&a[0], p => ok(p / x))
         }
         "I.mul.prim" => {
             let x = ai(&a[0]);
